@@ -1,10 +1,13 @@
 import DendroModel.Model.C10
+import DendroModel.Gen.C10Kernels
 open DendroModel DendroModel.C10
 
 /-! line protocol of C10.
 `hist op ; op ; …`  → per op `ret # dump`, joined by ` | `; `dump` = every namespace of the world after the op.
 `lower <hex>`       → hex of `pyLower`
-`esc ps qu <hex>`   → hex of `escapeToken` -/
+`esc ps qu <hex>`   → hex of `escapeToken`
+`matcho cs <hex|-> <hex|->` → `labelMatchesO` (query, taxon label; `-` = None); `esco ps qu <hex|->` → `escapeTokenO`
+`ktb i` / `kall c` / `kbtl m` / `kbits n len` / `knwk split all bm` → the regenerated kernels of `Gen/C10Kernels.lean` -/
 
 def pBool (s : String) : Option Bool := if s == "1" then some true else if s == "0" then some false else none
 def pCase (s : String) : Option (Option Bool) :=
@@ -16,8 +19,32 @@ def pItem (s : String) : Option Item :=
   | 'L' :: r => (pStr (String.ofList r)).map Item.lab
   | _ => none
 
+def pSortKey (s : String) : Option SortKey :=
+  if s == "label" then some .label else if s == "lower" then some .lower else if s == "len" then some .len
+  else if s == "acc" then some .acc else if s == "lenlabel" then some .lenLabel else if s == "const" then some .const else none
+
+/-- `-` = keyword absent; `T1,2` / `T` = a list of taxon ids; `L<hex>,<hex>` / `L` = a list of labels -/
+def pOptNats (s : String) : Option (Option (List Nat)) :=
+  match s.toList with
+  | ['-'] => some none
+  | 'T' :: r => if r.isEmpty then some (some []) else ((String.ofList r).splitOn ",").mapM String.toNat? |>.map some
+  | _ => none
+
+def pOptStrs (s : String) : Option (Option (List String)) :=
+  match s.toList with
+  | ['-'] => some none
+  | 'L' :: r => if r.isEmpty then some (some []) else ((String.ofList r).splitOn ",").mapM pStr |>.map some
+  | _ => none
+
 def parseOp (ws : List String) : Option Op :=
   match ws with
+  | ["sortk", n, k, b] => do pure (Op.sortk (← n.toNat?) (← pSortKey k) (← pBool b))
+  | ["btli", n, m, i] => do pure (Op.btli (← n.toNat?) (← m.toNat?) (← i.toNat?))
+  | ["tbmkw", n, c, f, ts, ls] => do pure (Op.tbmKw (← n.toNat?) (← pOptNats ts) (← pOptStrs ls) (← pCase c) (← pBool f))
+  | "mknsimm" :: b :: items => do let b ← pBool b; let is ← items.mapM pItem; pure (Op.mknsImm b is)
+  | ["copykw", n, c, m] => do pure (Op.copyKw (← n.toNat?) (← pCase c) (← pCase m))
+  | ["scoped", n] => do pure (Op.scopedCopy (← n.toNat?))
+  | ["ltm", n, c, l] => do pure (Op.ltm (← n.toNat?) (← pCase c) (← pStr l))
   | ["mk", l] => (pStr l).map Op.mk
   | "mkns" :: b :: items => do let b ← pBool b; let is ← items.mapM pItem; pure (Op.mkns b is)
   | ["add", n, t] => do pure (Op.add (← n.toNat?) (← t.toNat?))
@@ -97,6 +124,14 @@ def runHist (w : World) : List (List String) → List String → Option (List St
       let (w', o) := step w op
       runHist w' gs ((showOut o ++ " # " ++ dump w') :: acc)
 
+/-- `bitmask_taxa_list` run on the regenerated kernels alone: the indices whose bit is taken -/
+def kbtlRun : Nat → Int → Int → List Int → List Int
+  | 0, _, _, acc => acc.reverse
+  | fuel + 1, m, idx, acc =>
+    if C10Kernels.btl_continue m then
+      kbtlRun fuel (C10Kernels.btl_next_mask m) (C10Kernels.btl_next_index idx) (if C10Kernels.btl_take m then idx :: acc else acc)
+    else acc.reverse
+
 def handle (ws : List String) : String :=
   match ws with
   | "hist" :: rest =>
@@ -106,9 +141,35 @@ def handle (ws : List String) : String :=
   | ["lower", h] => match pStr h with
     | some s => encodeStr (some (pyLower s))
     | none => "bad-op"
+  | ["matcho", cs, q, tl] => match pBool cs, decodeStr q, decodeStr tl with
+    | some cs, some q, some tl => if labelMatchesO cs q tl then "True" else "False"
+    | _, _, _ => "bad-op"
+  | ["esco", ps, qu, h] => match pBool ps, pBool qu, decodeStr h with
+    | some ps, some qu, some l => encodeStr (some (escapeTokenO ps qu l))
+    | _, _, _ => "bad-op"
   | ["esc", ps, qu, h] => match pBool ps, pBool qu, pStr h with
     | some ps, some qu, some s => encodeStr (some (escapeToken ps qu s))
     | _, _, _ => "bad-op"
+  | ["ktb", i] => match i.toNat? with
+    | some i => toString (C10Kernels.taxon_bitmask i)
+    | none => "bad-op"
+  | ["kall", c] => match c.toNat? with
+    | some c => toString (C10Kernels.all_taxa_bitmask c)
+    | none => "bad-op"
+  | ["kbtl", m] => match m.toNat? with
+    | some m => s!"{C10Kernels.btl_continue m} {C10Kernels.btl_take m} {C10Kernels.btl_next_mask m} {C10Kernels.btl_next_index m} {C10Kernels.btl_default_index}"
+    | none => "bad-op"
+  | ["kbtlrun", m] => match m.toNat? with
+    | some m => ",".intercalate ((kbtlRun (m + 1) m C10Kernels.btl_default_index []).map toString)
+    | none => "bad-op"
+  | ["kbits", n, len] => match n.toNat?, len.toNat? with
+    | some n, some len => encodeStr (some (String.ofList (C10Kernels.bitmask_as_bitstring n len)))
+    | _, _ => "bad-op"
+  | ["knwk", sp, al, bm] => match sp.toNat?, al.toNat?, bm.toNat? with
+    | some sp, some al, some bm => s!"{C10Kernels.nwk_trivial sp al} {C10Kernels.nwk_left sp bm}"
+    | _, _, _ => "bad-op"
+  | ["kfmt"] => encodeStr (some (C10Kernels.nwk_flat_open ++ "|" ++ C10Kernels.nwk_flat_sep ++ "|" ++ C10Kernels.nwk_flat_close ++ "|"
+      ++ C10Kernels.nwk_sides_open ++ "|" ++ C10Kernels.nwk_sides_sep ++ "|" ++ C10Kernels.nwk_sides_mid ++ "|" ++ C10Kernels.nwk_sides_close))
   | _ => "bad-op"
 
 def main : IO Unit := do driverLoop (← IO.getStdin) handle
